@@ -580,8 +580,17 @@ func runSeq(c SCase, drivers []*Driver, info *Info) *vstat.Violation {
 			for _, d := range drivers {
 				recs := make([]kvs.Record, len(keys))
 				exps := map[string]*time.Time{}
+				// as a caller does who computes "now + ttl" once: the records of a batch that expire at the same moment
+				// carry one and the same *time.Time
+				shared := map[int]*time.Time{}
 				for j, k := range keys {
-					e := d.expiry(m, expc[j])
+					e, ok := shared[expc[j]]
+					if !ok || expc[j] == ExpNever {
+						e = d.expiry(m, expc[j])
+						shared[expc[j]] = e
+					} else if e != nil {
+						info.class("batch_records_share_one_expiry_pointer")
+					}
 					exps[k] = e
 					recs[j] = kvs.Record{Key: k, Value: cp(Vals[vals[j]]), Version: d.verArg(k, 0), ExpiresAt: e}
 				}
